@@ -51,6 +51,11 @@ pub fn gen_sql_case(prop: &str, verif_seed: u64, idx: u64) -> SqlReplay {
     SqlReplay { property: prop.into(), engine: engine.into(), seed, cfg, allow_oom: false, guards, events, violation: None, trace: vec![] }
 }
 
+/// Harness self-check: a generated history must not trip the guards it was generated under.
+pub fn audit_generated(case: &SqlReplay) -> Option<(usize, String)> {
+    crate::guards::first_violation(&case.events, &case.guards)
+}
+
 pub fn run_sql_case(case: &SqlReplay, idx: u64) -> RunResult {
     let dir = util::fresh_dir("e1");
     let mut res = RunResult { idx, seed: case.seed, violation: None, counters: BTreeMap::new(), fingerprint: 0, steps: case.events.len() as u64, replay: None, hazards: vec![] };
